@@ -285,6 +285,18 @@ def c20(pid, tier, seed, selftest=False):
     # programs with two handles dropped by two threads at once are executed many times (the interleaving is the machine's)
     scen = [{"op": "erase", "id": "e%d" % i, "prog": p, "repeat": (300 if thorough else 100) if any(x["op"] == "drop2" for x in p) else 1}
             for i, p in enumerate(progs)]
+    # the same alphabet, long programs: MANY objects alive at once (a hundred and more; every constructor, clones of clones),
+    # dropped first-in-first-out and last-in-first-out - nothing in the contract depends on how many keys are alive
+    for j, (n_live, order) in enumerate([(40, "fifo"), (130, "lifo"), (130, "fifo")]):
+        prog = []
+        for i in range(n_live):
+            if i % 3 == 2:
+                prog.append({"op": "clone", "slot": i, "kind": "generate", "src": i - 1})
+            else:
+                prog.append({"op": "construct", "slot": i, "kind": ["generate", "from_bytes", "payload_new"][(i // 3) % 3], "src": 0})
+        for i in (range(n_live) if order == "fifo" else reversed(range(n_live))):
+            prog.append({"op": "drop", "slot": i, "kind": "generate", "src": 0})
+        scen.append({"op": "erase", "id": "many%d" % j, "prog": prog, "repeat": 1})
     rep.extra["programs_with_concurrent_drops"] = sum(1 for s_ in scen if s_["repeat"] > 1)
     for s in scen:
         rep.case(json.dumps(s["prog"]), any(x["op"] == "clone" for x in s["prog"]))
